@@ -807,6 +807,7 @@ impl LdapConnAsync {
                 },
                 op_tuple = self.rx.recv() => {
                     if let Some((id, op, tag, controls, tx)) = op_tuple {
+                        let unbinding = matches!(op, LdapOp::Unbind);
                         if let LdapOp::Search(ref search_tx) = op {
                             self.searchmap.insert(id, search_tx.clone());
                         }
@@ -842,6 +843,11 @@ impl LdapConnAsync {
                             }
                             if let Err(e) = tx.send((Tag::Null(Null { ..Default::default() }), vec![])) {
                                 warn!("ldap null result send error: {:?}", e);
+                            }
+                            if unbinding {
+                                // The transport is closed: nothing more can be sent or received.
+                                // Leaving the loop fails the operations still waiting for a response.
+                                break;
                             }
                         }
                     } else {
